@@ -26,7 +26,7 @@ grep -q "uuidutils.py" "$SRC/patch.diff" && CS="$CS C14"
 CS="$(echo $CS | tr ' ' '\n' | sort -u | tr '\n' ' ')"
 RES=""
 for C in $CS; do
-  OUT="$(cd /verif && OSLO_UTILS_VERIF_REPO="$SCR" VERIF_SCRATCH_EVIDENCE="$SCR/ev" ./vcheck "$C" 2>&1)"; RC=$?
+  OUT="$(cd /verif && OSLO_UTILS_VERIF_REPO="$SCR" VERIF_SCRATCH_EVIDENCE="$SCR/ev" timeout 1500 ./vcheck "$C" 2>&1)"; RC=$?
   CLS="$(printf '%s\n' "$OUT" | grep -m1 '^  class\|HARNESS' | cut -c1-260 | tr '"' "'")"
   RES="$RES{\"check\":\"$C\",\"exit\":$RC,\"first_class\":\"$CLS\"},"
   echo "EQUIV $ID check=$C exit=$RC $CLS"
